@@ -36,7 +36,7 @@ CLAIMED["C01"] = {
 CLAIMED["C18"] = {
   "text": "Machine-checked proofs on the N-thread half-lock step machine, for every reachable state of every interleaving: no deadlock (some thread is always enabled while any is unfinished), mutual exclusion of writers, readers (deliveries) are wait-free (every reader step is enabled regardless of other threads), quiescent completion (a writer anywhere inside write()/store() with both reader counters at zero returns alone within 8 own steps), and poisoning of the writer mutex never disables a step. Tied to /repo by lock-step differential execution of the real HalfLock under the deterministic scheduler (including destructors that panic under the writer mutex) against the model, with monitors for completion, the quiescent bound and non-wedging on the implementation trace.",
   "design_ref": "DESIGN.md section 6 C18",
-  "note": "Trusted: as C01 (SC, shim completeness, scheduler). Termination is proved in the bounded-step / enabledness form above for finite workloads; with an infinite stream of overlapping deliveries a writer can spin by design and that liveness is not claimed. The iterator-level part (instance mutex of Signals: add_signal/Drop after a panic) is decided under C12. Registry level, every reachable L6 state: C18_registry_waits_only_for_data_mutex, C18_registry_no_deadlock, C18_registry_lock_order; tie theorem C18_lock_order_source. Props/C18b.lean (every reachable state): C18_seen_slot_not_reloaded, C18_seen_flags_sticky, C18_barrier_ends_when_both_seen - the barrier's per-slot flags are sticky, a slot seen empty is never loaded again and the barrier ends with the load that finds the second one empty, so a delivery that arrives after the writer saw its slot empty is never waited for; the same rule is a monitor on the real barrier's traces (scenarios with a stream of overlapping read sections).",
+  "note": "Trusted: as C01 (SC, shim completeness, scheduler). Termination is proved in the bounded-step / enabledness form above for finite workloads; with an infinite stream of overlapping deliveries a writer can spin by design and that liveness is not claimed. The iterator-level part (instance mutex of Signals: add_signal/Drop after a panic) is decided under C12. Registry level, every reachable L6 state: C18_registry_waits_only_for_data_mutex, C18_registry_no_deadlock, C18_registry_lock_order; tie theorem C18_lock_order_source. Props/C18b.lean (every reachable state): C18_seen_slot_not_reloaded, C18_seen_flags_sticky, C18_barrier_ends_when_both_seen - the barrier's per-slot flags are sticky, a slot seen empty is never loaded again and the barrier ends with the load that finds the second one empty, so a delivery that arrives after the writer saw its slot empty is never waited for; the same rule is a monitor on the real barrier's traces (scenarios with a stream of overlapping read sections). C18_registry_quiescent_completion (Lemmas/RegistryConcQuiet.lean): in every reachable L6 state a mutator anywhere inside its operation, with no delivery inside a read section of either half-lock and data's writer mutex free or its own, returns alone within its measure (at most 36) of own steps, its script untouched.",
   "technique": "Lean 4 invariants + bounded-progress lemmas over an N-thread step machine + lock-step correspondence under a deterministic scheduler",
 }
 
@@ -96,7 +96,7 @@ CLAIMED["C10"] = {
 CLAIMED["C11"] = {
   "text": "Machine-checked on L8 for every reachable state of every interleaving: closed is sticky (no step resets it); with the current (fixed) shape of poll_signal a non-blocking poll returns Pending only if its readiness callback was consulted during that same call and last answered 'nothing available' (inductive invariant on the re-check program point); a kernel-checked 3-step witness shows the shape before the fix violates this, and the fixed shape answers Closed on the same schedule; the shape flag is regenerated from backend.rs each run. Tied to /repo by the lock-step iterator correspondence with close() threads racing every consumer step, callback-consultation logging, and monitors (sticky flag, store-before-wake in close, Pending implies consulted-false, no consumer left blocked after a completed close).",
   "design_ref": "DESIGN.md section 6 C11 and section 7.1",
-  "note": _IT_NOTE + " The genuine defect found by this check on the original tree was repaired by fix: commit c911cc7 (known_findings.json, fixed). C11_close_unblocks (Props/C11b.lean, inductive CloseInv): in every reachable state, once close() has returned, the consumer's next step is enabled - it is never left in its blocking callback; the numeric step bound to Closed is monitored on every explored schedule. The adapters (signal-hook-tokio, signal-hook-async-std) are probed at operation level: a poll_next answering Pending followed by a delivery or close() must call the task's waker; compared with L8 run sequentially.",
+  "note": _IT_NOTE + " The genuine defect found by this check on the original tree was repaired by fix: commit c911cc7 (known_findings.json, fixed). C11_close_unblocks (Props/C11b.lean, inductive CloseInv): in every reachable state, once close() has returned, the consumer's next step is enabled - it is never left in its blocking callback; the numeric step bound to Closed is monitored on every explored schedule. The adapters (signal-hook-tokio, signal-hook-async-std) are probed at operation level: a poll_next answering Pending followed by a delivery or close() must call the task's waker; compared with L8 run sequentially. C11_close_bounded (Props/C11c.lean): with the closed flag set, the consumer alone finishes the call it is in within cost <= pipe/1024 + MAX_SIGNUM + number of set slots + 6 own steps, for pending / wait / poll / forever and either shape of poll_signal.",
   "technique": "Lean 4 inductive invariant + kernel-checked defect witness + lock-step correspondence",
 }
 
